@@ -198,5 +198,24 @@ CHECKS["C06"] = {
     ],
 }
 
+CHECKS["C05"] = {
+    "pkg": "./checks/c05",
+    "level": "fault_enumeration",
+    "technique": "exhaustive enumeration of Lightning answer scripts executed on the real mint, judged by a reference automaton used as a validity predicate",
+    "rule": ("every script = pay answer {success, pending, failed, transport error} followed by status-lookup answers {not-found, generic error, failed, pending, succeeded} with total length <= 4 (<= 5 in thorough), "
+             "each lookup consumed by melt's own extra check (first answer after a failed / errored pay call) or by a GetMeltQuoteState poll or a ProofsStateCheck, in every order, followed by each of three follow-ups {none, swap of the inputs then repeat melt, repeat melt then swap}; "
+             "every script is executed on the real mint (fresh inputs and quote per script) with the answers scripted in the Lightning model. "
+             "oracle: reference automaton over (quote in UNPAID/PENDING/PAID, inputs in free/locked/spent) written from the statement as a set of allowed states after each step (both outcomes allowed where the statement only permits a release), "
+             "checked after every step against the quote row, the proof rows, the responses, the number of lookups actually consumed and the preimage; a follow-up swap must succeed iff the inputs are free. "
+             "non-trivial: script with >=1 status lookup consumed; distinct = the script."),
+    "level_text": ("The finite space of Lightning answer scripts named by the property is enumerated completely (exhaustive: true) and each member is run against the real MeltTokens / GetMeltQuoteState / ProofsStateCheck code; "
+                   "fault enumeration is the right level because the quantifier is a finite set of fault sequences."),
+    "level_note": _WORLD_NOTE + "Answers are free scripts (not required to be consistent with each other), as the property's quantifier states. Fee ppk 100 and a 1% fee reserve are fixed.",
+    "assumptions": ["one input proof and one external invoice per script; fee ppk 100; fee reserve ceil(1%)"],
+    "units": [
+        plain("scripts", "^TestScripts$", qs=16, ts=16),
+    ],
+}
+
 NOT_APPLICABLE = {}
 HOOK_COMMITS = []
